@@ -7,8 +7,8 @@ ID = 'C17'
 LEVEL = 'exploration'
 RULE = ('complete enumeration of spatial dimension vector ({2,3}^1..3) x snapshot count 3..6 x data family (generic full rank '
         'with threshold 0 / 1e-10; low-rank linear dynamics x_{k+1}=A x_k with prescribed spectrum incl. a complex pair, rank 2 '
-        'or 3, threshold 1e-10) x TT representation (maximal ranks via TT(array); over-parameterised via a sum with a zero '
-        'tensor) x (ortho_l, ortho_r) in the combinations valid for the representation x routine (exact, standard). Oracle: '
+        'or 3, threshold 1e-10; snapshot pairs of rank-3 dynamics with an eigenvalue 2e-3, thresholds 1e-2 and 1e-10) x TT representation (maximal ranks via TT(array); over-parameterised via a sum with a zero '
+        'tensor; uncompressed sum of two trains sharing their spatial cores) x (ortho_l, ortho_r) in the combinations valid for the representation x routine (exact, standard). Oracle: '
         'SVD-based matrix DMD with the same relative cut; eigenvalues as multisets, every mode up to a complex scalar. '
         'Non-trivial: more than one spatial mode or a truncated rank.')
 ASSUMPTIONS = ['numpy SVD-based matrix DMD of the unfolded snapshot matrices is the reference', 'real snapshot data', 'thresholds in a spectral gap (D7); eigenvalues of the reduced matrix simple and non-zero (generic data)']
@@ -16,8 +16,8 @@ CHUNK = 16
 
 
 def space(tier):
-    return {'spatial dims': '{2,3}^d, d=1..3', 'snapshots': [3, 4, 5, 6], 'families': ['generic', 'lowrank2', 'lowrank3'], 'threshold': [0, 1e-10],
-            'representation': ['tt-svd', 'overparameterised'], 'flags': ['(T,T)', '(F,T)', '(T,F)', '(F,F)']}
+    return {'spatial dims': '{2,3}^d, d=1..3', 'snapshots': [3, 4, 5, 6], 'families': ['generic', 'lowrank2', 'lowrank3', 'snapshot pairs with an eigenvalue 2e-3'], 'threshold': [0, 1e-10, 1e-2],
+            'representation': ['tt-svd', 'overparameterised (sum with zero)', 'uncompressed sum of two trains sharing spatial cores'], 'flags': ['(T,T)', '(F,T)', '(T,F)', '(F,F)']}
 
 
 def cases(tier):
@@ -25,10 +25,12 @@ def cases(tier):
     for d in ((1, 2, 3) if q else (1, 2, 3, 4)):
         for dims in itertools.product([2, 3] if (q or d == 4) else [2, 3, 4], repeat=d):
             for m in ((3, 4, 5, 6) if q else (3, 4, 5, 6, 8, 10)):
-                for fam, thr in (('generic', 0), ('generic', 1e-10), ('lowrank2', 1e-10), ('lowrank3', 1e-10)):
-                    for rep in ('ttsvd', 'over'):
+                for fam, thr in (('generic', 0), ('generic', 1e-10), ('lowrank2', 1e-10), ('lowrank3', 1e-10), ('smalleig', 1e-2), ('smalleig', 1e-10)):
+                    for rep in ('ttsvd', 'over', 'split'):
                         for fl in ('TT', 'FT', 'TF', 'FF'):
-                            if rep == 'over' and fl != 'TT':
+                            if rep in ('over', 'split') and fl != 'TT':
+                                continue
+                            if rep == 'split' and thr == 0:
                                 continue
                             yield {'dims': list(dims), 'm': m, 'fam': fam, 'thr': thr, 'rep': rep, 'fl': fl}
 
@@ -37,6 +39,16 @@ def make_data(rng, dims, m, fam):
     N = int(np.prod(dims))
     if fam == 'generic':
         Z = rng.standard_normal((N, m + 1))
+    elif fam == 'smalleig':
+        # snapshot PAIRS (x_j, A x_j) of linear dynamics of rank 3 with the real spectrum {0.9, 0.5, 2e-3}: one eigenvalue far
+        # below the relative cut used for the singular values, which themselves are all of order one
+        r = min(3, N, m)
+        modes = np.linalg.qr(rng.standard_normal((N, r)))[0]
+        B = np.diag([0.9, 0.5, 2e-3][:r])
+        T_ = rng.standard_normal((r, r)) + 2 * np.eye(r)
+        B = T_ @ B @ np.linalg.inv(T_)
+        C = np.linalg.qr(rng.standard_normal((m, r)))[0].T * np.array([1.0, 0.8, 0.6][:r])[:, None]
+        return modes @ C, modes @ B @ C
     else:
         r = 2 if fam == 'lowrank2' else 3
         r = min(r, N)
@@ -69,6 +81,14 @@ def run_case(case, seed):
     x = TT(X.reshape(shape)); y = TT(Y.reshape(shape))
     if case['rep'] == 'over':
         x = x + tt.zeros(dims + [m], [1] * (d + 1), 1); y = y + tt.zeros(dims + [m], [1] * (d + 1), 1)
+    if case['rep'] == 'split':
+        # uncompressed sum of two trains that share their spatial cores: the last rank is twice the rank of the snapshot
+        # matrix while the last core has full row rank (when it fits)
+        def split(t):
+            sa = rng.standard_normal(t.cores[-1].shape)
+            a = TT([c_.copy() for c_ in t.cores[:-1]] + [sa]); b = TT([c_.copy() for c_ in t.cores[:-1]] + [t.cores[-1] - sa])
+            return a + b
+        x = split(x); y = split(y)
     ol, orr = case['fl'][0] == 'T', case['fl'][1] == 'T'
     if not ol:
         x.ortho_left(end_index=x.order - 3)            # TT(array) already is left-orthonormal; harmless and explicit
@@ -79,7 +99,11 @@ def run_case(case, seed):
     U, s, Vt = np.linalg.svd(X, full_matrices=False)
     rel = s / s[0]
     cut = thr if thr else 1e-13
-    if np.any((rel > cut * 1e-3) & (rel < max(cut * 1e3, 1e-7))) or (thr == 0 and rel.min() < 1e-7):
+    if thr >= 1e-6:
+        nogap = np.any((rel > cut / 5) & (rel < cut * 5))          # a coarse cut: singular values within a factor 5 of it
+    else:
+        nogap = np.any((rel > cut * 1e-3) & (rel < max(cut * 1e3, 1e-7))) or (thr == 0 and rel.min() < 1e-7)
+    if nogap:
         r.skipped += 1
         r.outcome = 'skipped-no-spectral-gap'
         return r
